@@ -70,8 +70,8 @@ theorem exec_kept (run : ProbeRunner) {s : St} {fl : List Nat} (H : HInv s fl)
     have hm := find_some_mem hf
     obtain ⟨_, ha, h2, hnf, _, hsl0⟩ := H.live_facts hm
     have hsl := Pool.lt_of_slot hsl0
-    have hg' : ((e ∈ s.issued ∧ ∀ c ∈ ids, c < s.ss.zst.length) ∧ RelsWF s.ss.isRel ids rels) ∧
-        relsExpr s p rels = true := by
+    have hg' : ((e ∈ s.issued ∧ ∀ c ∈ ids, c < s.ss.zst.length) ∧ RelsStep s.ss.isRel p ids rels) ∧
+        tgtsExpr s rels = true := by
       simpa only [RelRefine.guard, Bool.and_eq_true, List.all_eq_true, decide_eq_true_eq] using hg
     have hreg' : ∀ (c : Comp), c ∈ ids → c < s.w.kinds.length := by
       rw [← H.zlen]; exact hg'.1.1.2
